@@ -133,5 +133,36 @@ harness!(eval_binary_orders_4, unwind = 7, |s| { eval_binary_orders::<S, 4, 5>(s
 harness!(eval_binary_orders_6, unwind = 9, |s| { eval_binary_orders::<S, 6, 7>(s, 0) });
 harness!(eval_binary_orders_4_slice, unwind = 7, |s| { eval_binary_orders::<S, 4, 5>(s, 2) });
 
-registry!("u1", intrinsics_spec, word_tracker, slice_tracker_3, slice_tracker_4,
+fn seg_apply(a: Seg, b: Seg) -> Seg {
+    assert!(a.live && b.live, "eval_numbers: a consumed operand reached an operator");
+    assert!(a.hi + 1 == b.lo, "eval_numbers: operands are not the adjacent live results");
+    Seg { lo: a.lo, hi: b.hi, live: true }
+}
+
+/// tracker selection (`eval_numbers`, reached through `eval_flatex_cloning`) across the 64/65
+/// operand boundary: M literal operands, ascending or descending application order.
+fn eval_numbers_boundary<S: Src, const M: usize>(s: &mut S) {
+    use exmex::BinOp;
+    let nodes: Vec<FlatNode<Seg>> = (0..M)
+        .map(|i| FlatNode { kind: FlatNodeKind::Num(Seg { lo: i as u16, hi: i as u16, live: true }), unary_op: UnaryOp::new() })
+        .collect();
+    let ops: Vec<FlatOp<Seg>> = (0..M - 1)
+        .map(|i| FlatOp { unary_op: UnaryOp::new(), bin_op: BinOpWithIdx { op: BinOp { apply: seg_apply, prio: 0, is_commutative: false }, idx: i } })
+        .collect();
+    let descending = s.bool();
+    let order: Vec<usize> = (0..M - 1).map(|i| if descending { M - 2 - i } else { i }).collect();
+    let r = eval_flatex_cloning(&[], &nodes, &ops, &order);
+    match &r {
+        Ok(v) => assert!(*v == Seg { lo: 0, hi: (M - 1) as u16, live: true }, "eval_numbers: result is the fully reduced chain"),
+        Err(_) => assert!(false, "eval_numbers: returns Ok"),
+    }
+    core::mem::forget(r);
+    core::mem::forget(nodes);
+    core::mem::forget(ops);
+}
+harness!(eval_numbers_boundary_64, unwind = 70, |s| { eval_numbers_boundary::<S, 64>(s) });
+harness!(eval_numbers_boundary_65, unwind = 70, |s| { eval_numbers_boundary::<S, 65>(s) });
+harness!(eval_numbers_boundary_66, unwind = 70, |s| { eval_numbers_boundary::<S, 66>(s) });
+
+registry!("u1", eval_numbers_boundary_64, eval_numbers_boundary_65, eval_numbers_boundary_66, intrinsics_spec, word_tracker, slice_tracker_3, slice_tracker_4,
     eval_binary_orders_4, eval_binary_orders_6, eval_binary_orders_4_slice);
